@@ -10,7 +10,7 @@ PROPS = "Props/C07.v"
 COQ_CHECK = ("Model.C07", "check")
 COQ_FALLBACK = None
 COQ_IMPORTS = ""
-SHARD = 70
+SHARD = 40
 RULE = ("mock mappers over random symmetric multigraph neighbour arrays (rings, stars, paths, isolated pixels, duplicate edges, "
         "shuffled row order, padded with -1; 2-10 pixels) with dyadic coefficients of either sign, dyadic signals in and outside [0,1], "
         "random split-cross tables (1, 3 or 4 distinct vertices, barycentric or signed dyadic weights, own pixel present/absent); real "
@@ -127,15 +127,12 @@ def rand_mock_obj(rng, n, style=None, wide=False, signed=False):
     return {"params": n, "nb": nb, "sizes": sizes, "signals": rand_signals(rng, n, wide), "smap": smap, "ssizes": ssz, "sw": sw}
 
 def gen_inputs(tier, rng):
-    """the extended-mesh kernel cases are the expensive ones inside Coq: spread them over the list (= over the shards)"""
+    """the streams differ a lot in what a case costs inside Coq (extended-mesh kernel cases, real inversions): deal them out
+    with a stride, so that every shard of consecutive cases gets the same mix"""
     items = list(gen_inputs0(tier, rng))
-    heavy = [x for x in items if x["op"] == "kernelx"]
-    light = [x for x in items if x["op"] != "kernelx"]
-    step = max(1, len(light) // max(1, len(heavy)))
-    for i, x in enumerate(light):
-        if i % step == 0 and heavy: yield heavy.pop(0)
-        yield x
-    for x in heavy: yield x
+    S = 11
+    for r in range(S):
+        for j in range(r, len(items), S): yield items[j]
 
 def gen_inputs0(tier, rng):
     big = tier == "thorough"
@@ -196,8 +193,9 @@ def gen_inputs0(tier, rng):
     # R. REAL inversions (aa.Inversion / InversionImagingMapping / InversionImagingWTilde on a real Imaging dataset): block assembly
     #    of the real AbstractInversion.regularization_matrix(_reduced) over mappers AND non-mapper objects, every order
     for base in realinv_bases(rng, big):
-        for perm in itertools.permutations(range(len(base["objs"]))):
-            yield {"op": "realinv", "mask": base["mask"], "seed": base["seed"], "objs": [base["objs"][i] for i in perm]}
+        for k, perm in enumerate(itertools.permutations(range(len(base["objs"])))):
+            # the blocks of a list with kernel schemes are checked one by one in its first order only (same blocks in every order)
+            yield {"op": "realinv", "mask": base["mask"], "seed": base["seed"], "objs": [base["objs"][i] for i in perm], "check_blocks": k == 0}
     # X. kernel schemes on EXTENDED meshes (some pair further than 5 scale lengths apart, spacing well below the scale)
     for inp in kernelx_inputs(rng, big):
         yield inp
@@ -232,6 +230,8 @@ def realinv_bases(rng, big):
         [("func", None), ("funcsub", C3)],
         [("func", C3), ("func", None), ("lin", {"name": "Zeroth", "par": ["5/4"]})],
         [("delaunay", {"name": "AdaptiveBrightness", "par": ["1/2", "2"]}), ("func", {"name": "ConstantZeroth", "par": ["1", "3"]}), ("lin", None)],
+        [("rect", {"name": "GaussianKernel", "par": ["2", "3/2"]}), ("func", None), ("funcsub", C3)],
+        [("delaunay", {"name": "ExponentialKernel", "par": ["1/2", "1"]}), ("lin", {"name": "Zeroth", "par": ["3"]})],
     ]
     for spec in fixed:
         objs = []
@@ -258,9 +258,12 @@ MASKS = [["11111", "10001", "10001", "10001", "11111"], ["11111", "11011", "1000
 def kernelx_inputs(rng, big):
     """extended meshes: separations reach 5.5 - 12 scale lengths, spacing 1/2 .. 3/4 of the scale; 60 - 150 points"""
     shapes = [(12, 12), (7, 20), (6, 16), (10, 10), (5, 24), (8, 14)]
-    todo = [(True, "rect", (12, 12), "1/2"), (False, "rect", (7, 20), "5/8"), (True, "hex", (9, 12), "5/8"), (False, "hex", (10, 10), "1/2"),
-            (True, "rect", (6, 16), "1/2"), (True, "rect", (7, 20), "5/8")]
+    todo = [(True, "rect", (12, 12), "1/2"), (False, "rect", (6, 18), "5/8"), (True, "hex", (9, 12), "5/8"), (False, "hex", (10, 10), "5/8"),
+            (True, "rect", (6, 16), "1/2"),
+            # strips: few points, separations up to 15 scale lengths
+            (True, "rect", (3, 24), "1/2"), (False, "rect", (3, 30), "5/8"), (True, "hex", (4, 20), "1/2")]
     if big:
+        todo += [(True, "rect", (7, 20), "5/8"), (False, "rect", (7, 20), "5/8"), (False, "rect", (12, 12), "1/2")]
         for i in range(24):
             todo.append((bool(i % 2), ["rect", "hex"][(i // 2) % 2], rng.choice(shapes), rng.choice(["1/2", "5/8", "3/4", "1/2"])))
     for gauss, mesh, shape, spacing in todo:
@@ -707,7 +710,7 @@ def run_realinv(aa, inp):
             seen.append((H, Hr)); terms.append(term(H, Hr))
     ok = True
     notes = {}
-    if kernel:
+    if kernel and inp.get("check_blocks", True):
         # the blocks themselves: scheme model for the seven schemes, the inverse contract for the kernel schemes
         for d, o, lo, B in zip(inp["objs"], L, objs, blocks):
             s = d["scheme"]
@@ -734,7 +737,7 @@ def run_realinv(aa, inp):
             except Exception: ok = False; notes["pd"] = d["kind"]
             continue
         wf = wf_of(s, o)
-        if d["kind"] in ("rect", "delaunay") and not wf: ok = False; notes["wf"] = d["kind"]
+        if not wf: ok = False; notes["wf"] = d["kind"]     # a real object (mesh or function list) must hand over a well-formed table
         r = pd_observed(("ok", B), s["name"], wf)
         if r is False: ok = False; notes["pd"] = d["kind"] + ":" + s["name"]
         if s["name"] not in PD_SCHEMES or not wf: all_pd = False
